@@ -221,7 +221,7 @@ class Fn:
             if callee["kind"] != "DeclRefExpr" or callee["referencedDecl"].get("kind") not in ("FunctionDecl", "CXXMethodDecl"): raise Unsupported("callee")
             rd = callee["referencedDecl"]
             owner = AST_OWNER.get(rd["id"], "") if rd.get("kind") == "CXXMethodDecl" else ""       # a static member function called without an object
-            name = call_name((owner + "__" if owner else "") + rd["name"], rd["type"]["qualType"])
+            name = call_name((owner + "__" if owner else "") + rd["name"], rd["type"]["qualType"], AST_NODE.get(rd["id"]))
             self.calls.add((rd["id"], rd["name"], rd["type"]["qualType"], name))
             args = [self.expr(a) for a in ks[1:]]
             if len(args) == 1: return "ECall1 %s (%s)" % (coq_str(name), args[0])
@@ -490,7 +490,12 @@ def cast_steps(n):
             if c.get("kind") != "NonTypeTemplateParmDecl": go(c)
     go(n); return out
 
-def call_name(name, sig):
+def call_name(name, sig, node=None):
+    """name of an instantiation: the function's name and its parameter types (desugared types of the declaration's parameters when the declaration is at hand -
+    a signature string may spell them with library aliases)"""
+    if node is not None and params_of(node):
+        try: return name + "".join("_" + SHORT[ity(p)] for p in params_of(node))
+        except Unsupported: pass
     m = re.match(r"^(.*?)\((.*)\)", sig)
     ps = [p for p in m.group(2).split(",") if p.strip()] if m else []
     return name + "".join("_" + SHORT[ity_of_qual(p)] for p in ps)
@@ -666,7 +671,9 @@ def translate(ast):
     # free functions and static member functions: everything called, plus bitWidth
     queue = [c for c in calls]
     for n in walk(ast):
-        if n.get("kind") == "FunctionDecl" and n.get("name") == "bitWidth" and body_of(n): queue.append((n["id"], "bitWidth", n["type"]["qualType"], call_name("bitWidth", n["type"]["qualType"])))
+        if n.get("kind") == "FunctionDecl" and n.get("name") == "bitWidth" and body_of(n):
+            try: queue.append((n["id"], "bitWidth", n["type"]["qualType"], call_name("bitWidth", n["type"]["qualType"], n)))
+            except Unsupported as ex: notes.append("bitWidth: %s" % ex)
     fns = []; done = set()
     while queue:
         fid, fname, sig, cn = queue.pop(0)
